@@ -68,7 +68,7 @@ PROPS = {
         "assumptions": ["instruction budget abstracted to one unit per input/output (the harness sets the performance counter accordingly)"],
     },
     "C09": {
-        "extra_props": ["FullCor", "FullCorExample", "FullSys", "C13Full"],
+        "extra_props": ["FullCor", "FullCorExample", "FullSys", "C13Full", "C09Full"],
         "model_spec_ops": ["c ingest"],
         "spec_ops": ["c upgrade", "c hb"],
         "streams": [{"name": "sync", "quick": 160, "thorough": 3200}, {"name": "ledger", "quick": 96, "thorough": 800}],
